@@ -78,6 +78,10 @@ func runSmCompress(c Case) interface{} {
 		return obj("harness-error", err.Error())
 	}
 	name := out.Name()
+	// the output file exists already and is much longer than any archive of these roots: what
+	// is written must replace it, not be laid over its beginning
+	const stale = 6 << 20
+	out.Write(bytes.Repeat([]byte{0xAA}, stale))
 	out.Close()
 	defer os.Remove(name)
 	args := []string{"-root", root, "-generate", "-o", name}
@@ -89,6 +93,9 @@ func runSmCompress(c Case) interface{} {
 		return obj("cls", "err")
 	}
 	b, _ := ioutil.ReadFile(name)
+	if len(b) >= stale {
+		return obj("cls", "ok", "method", "stale-bytes-after-"+magicOf(b))
+	}
 	return obj("cls", "ok", "method", magicOf(b))
 }
 
@@ -133,6 +140,11 @@ func runSmAddfiles(c Case) interface{} {
 	}
 	for i, s := range unhxs(c["switch_scripts"]) {
 		args = append(args, "-addfiles", write("s"+string(rune('0'+i)), strings.Split(s, "\n")))
+	}
+	if b, _ := c["dir_script"].(bool); b {
+		// a directory where an add-files file is expected: opens, cannot be read — an error
+		os.Mkdir(dir+"/a-directory", 0755)
+		args = append(args, "-addfiles", dir+"/a-directory")
 	}
 	code, so, _ := smRun(root, args...)
 	if code != 0 {
@@ -186,6 +198,9 @@ func init() {
 				}
 				// the build root spelt in different ways: all mean the same directory
 				emit(Case{"op": "sm.addfiles", "recipe_scripts": hxs(rs), "switch_scripts": hxs(ss), "rootspell": g.Intn(6)})
+				if g.Chance(1, 4) {
+					emit(Case{"op": "sm.addfiles", "recipe_scripts": hxs(rs), "switch_scripts": hxs(ss), "rootspell": 0, "dir_script": true})
+				}
 			}
 		}
 	})
